@@ -285,11 +285,11 @@ type tracer struct {
 	h *H
 }
 
-func (t *tracer) EventEmitted(reflect.Type)          {}
-func (t *tracer) AddSubscriber(reflect.Type)         {}
-func (t *tracer) RemoveSubscriber(reflect.Type)      {}
-func (t *tracer) SubscriberQueueLength(string, int)  {}
-func (t *tracer) SubscriberQueueFull(string, bool)   {}
+func (t *tracer) EventEmitted(reflect.Type)         {}
+func (t *tracer) AddSubscriber(reflect.Type)        {}
+func (t *tracer) RemoveSubscriber(reflect.Type)     {}
+func (t *tracer) SubscriberQueueLength(string, int) {}
+func (t *tracer) SubscriberQueueFull(string, bool)  {}
 func (t *tracer) SubscriberEventQueued(name string) {
 	t.a.mu.Lock()
 	t.a.counts[name]++
